@@ -236,6 +236,91 @@ fn register(c: &Case) -> (String, Option<tera::Tera>) {
     }
 }
 
+/// the same template without any edge (no `extends`, no include anywhere)
+fn strip(t: &TplS) -> TplS {
+    let mut p = t.clone();
+    p.parent = None;
+    p.top_includes.clear();
+    for b in &mut p.blocks {
+        b.includes.clear();
+    }
+    for c in &mut p.comps {
+        c.includes.clear();
+    }
+    p.tag = "v0".into();
+    p
+}
+
+/// History variant: register the set with template `x` stripped of its edges (one batch), then
+/// re-register `x` with its real source on its own, so that whatever cycle or chain goes through
+/// `x` is closed by a REPLACEMENT.  `None` when the first step is not accepted (not applicable);
+/// otherwise the answer of the second call in the format of `register`.
+fn register_two_step(c: &Case, x: usize) -> Option<String> {
+    let r = catch(std::panic::AssertUnwindSafe(|| {
+        let mut tera = engine(&c.prefixes);
+        let mut first = c.tpls.clone();
+        first[x] = strip(&c.tpls[x]);
+        if add_all(&mut tera, &first).is_err() {
+            return None;
+        }
+        Some(match tera.add_raw_template(&c.tpls[x].name, &c.tpls[x].source()) {
+            Ok(()) => format!("ok {}", real_derived(&tera).canon()),
+            Err(e) => canon_err(&e),
+        })
+    }));
+    match r {
+        Ok(x) => x,
+        Err(p) => Some(format!("panic {p}")),
+    }
+}
+
+/// two answers agree as far as the property goes: both accept with the same derived data, or both
+/// reject with the same error kind (the chains reported inside the error are not compared)
+fn same_answer(a: &str, b: &str) -> bool {
+    if a.starts_with("ok") || b.starts_with("ok") {
+        a == b
+    } else {
+        err_class(a) == err_class(b) && !a.starts_with("panic") && !b.starts_with("panic")
+    }
+}
+
+/// "same" | "na" | "diff <answer of the second call>"
+fn history_check(c: &Case, x: usize, imp: &str) -> String {
+    match register_two_step(c, x) {
+        None => "na".into(),
+        Some(r) if same_answer(&r, imp) => "same".into(),
+        Some(r) => format!("diff {r}"),
+    }
+}
+
+/// a ring of `n` templates (include or extends edges i -> i+1 -> … -> 0), entered from a tail of
+/// `tail` further templates
+fn ring_case(extends: bool, n: usize, tail: usize) -> Case {
+    let total = n + tail;
+    let name = |i: usize| format!("r{i}");
+    let mut tpls = Vec::new();
+    for i in 0..total {
+        let mut t = TplS::new(&name(i));
+        // tail: n+tail-1 -> … -> n -> 0 ; ring: i -> i+1, n-1 -> 0
+        let target = if i >= n { if i == n { 0 } else { i - 1 } } else { (i + 1) % n };
+        let mut block = BlockS { name: "k".into(), ..Default::default() };
+        let mut comp = CompS { name: format!("c_{}", name(i)), includes: vec![] };
+        if extends {
+            t.parent = Some(name(target));
+        } else {
+            match i % 3 {
+                0 => t.top_includes.push(name(target)),
+                1 => block.includes.push(name(target)),
+                _ => comp.includes.push(name(target)),
+            }
+        }
+        t.blocks.push(block);
+        t.comps.push(comp);
+        tpls.push(t);
+    }
+    Case { prefixes: vec![], tpls }
+}
+
 /// "ok" | "err" | "panic" per template
 fn render_all(tera: &tera::Tera, c: &Case) -> String {
     let mut out = Vec::new();
@@ -265,8 +350,8 @@ fn plan(quick: bool) -> Plan {
     if quick {
         Plan { n: 3, max_edges: None, total: 5u64.pow(3) * 512, sets: vec![] }
     } else {
-        let sets = edge_sets(4, 4);
-        Plan { n: 4, max_edges: Some(4), total: 6u64.pow(4) * sets.len() as u64, sets }
+        let sets = edge_sets(4, 5);
+        Plan { n: 4, max_edges: Some(5), total: 6u64.pow(4) * sets.len() as u64, sets }
     }
 }
 
@@ -283,7 +368,9 @@ fn child_exhaustive(quick: bool, seed: u64, k: u64, stride: u64) {
         w.flush().unwrap();
         let (imp, tera) = register(&c);
         let renders = tera.map(|t| render_all(&t, &c)).unwrap_or_default();
-        writeln!(w, "{idx}\t{imp}\t{renders}").unwrap();
+        // the same set reached through a replacement of one template
+        let hist = history_check(&c, (idx % p.n as u64) as usize, &imp);
+        writeln!(w, "{idx}\t{imp}\t{renders}\t{hist}").unwrap();
         idx += stride;
     }
     w.flush().unwrap();
@@ -648,6 +735,11 @@ fn main() {
         let req = format!("fin 0 1 {}", set_wire(&c.prefixes, &c.tpls));
         println!("model: {:?}", driver::run_batch(&exe, &[req]));
         println!("graph facts: {:?}\noracle: {:?}", graph_facts(&c), oracle(&c, &imp));
+        if let Some(k) = j.get("replaced_last").and_then(|v| v.as_u64()) {
+            let k = k as usize;
+            println!("with {:?} stripped of its edges in a first batch and re-registered last: {:?}", c.tpls[k].name, register_two_step(&c, k));
+            println!("oracle on that answer: {:?}", register_two_step(&c, k).and_then(|r| oracle(&c, &r)));
+        }
         if tera.is_some() {
             for t in &c.tpls {
                 let (st, out) = render_in_child(&c, &t.name, "replay", Duration::from_secs(20));
@@ -683,6 +775,9 @@ fn main() {
     report.notes.push(format!("exhaustive enumeration: {} sets over {} templates in {:.1} s", p.total, p.n, t0.elapsed().as_secs_f64()));
 
     let mut results: Vec<(u64, String, String)> = Vec::with_capacity(p.total as usize);
+    // (index of the set, template replaced last, answer of the replacing call)
+    let mut hist_fails: Vec<(Case, usize, String, String)> = Vec::new();
+    let mut n_hist_fails = 0u64;
     let mut known_seen: BTreeSet<String> = BTreeSet::new();
     for (status, out) in &worker_out {
         let mut last_at: Option<u64> = None;
@@ -691,10 +786,25 @@ fn main() {
                 last_at = i.parse().ok();
                 continue;
             }
-            let mut it = line.splitn(3, '\t');
+            let mut it = line.splitn(4, '\t');
             let idx: u64 = it.next().unwrap_or("").parse().unwrap_or(u64::MAX);
             let imp = it.next().unwrap_or("").to_string();
             let renders = it.next().unwrap_or("").to_string();
+            let hist = it.next().unwrap_or("na");
+            report.count(&format!("history.replacement-last.{}", hist.split(' ').next().unwrap_or("")));
+            if hist != "na" {
+                report.oracle_checks += 1;
+            }
+            if let Some(r2) = hist.strip_prefix("diff ") {
+                n_hist_fails += 1;
+                // keep the strongest examples: those where acceptance itself differs
+                let strong = imp.starts_with("ok") != r2.starts_with("ok");
+                if strong && hist_fails.iter().filter(|h| h.2.starts_with("ok") != h.3.starts_with("ok")).count() < 3 {
+                    hist_fails.insert(0, (exhaustive_case(p.n, idx, env.seed, p.max_edges, &p.sets), (idx % p.n as u64) as usize, imp.clone(), r2.to_string()));
+                } else if hist_fails.len() < 3 {
+                    hist_fails.push((exhaustive_case(p.n, idx, env.seed, p.max_edges, &p.sets), (idx % p.n as u64) as usize, imp.clone(), r2.to_string()));
+                }
+            }
             if Some(idx) == last_at {
                 last_at = None;
             }
@@ -727,10 +837,24 @@ fn main() {
     // ---- 2. random larger graphs (registered in-process; accepted ones rendered in-process under
     //         catch_unwind after the independent oracle agrees they are acyclic)
     let mut rng = Rng::new(env.seed);
-    let n_random = env.budget(6000, 300_000);
+    let n_random = env.budget(6000, 600_000);
     let n_exh = results.len();
-    let randoms: Vec<Case> = (0..n_random).map(|_| random_case(&mut rng)).collect();
-    let random_results: Vec<(String, String)> = std::thread::scope(|s| {
+    let mut randoms: Vec<Case> = (0..n_random).map(|_| random_case(&mut rng)).collect();
+    // long rings (beyond any fixed depth someone might cut a walk at), alone and entered from a tail
+    let mut ring_sizes: Vec<usize> = vec![65, 100, 129];
+    if !quick {
+        for _ in 0..12 {
+            ring_sizes.push(66 + rng.below(260));
+        }
+    }
+    for &n in &ring_sizes {
+        for extends in [false, true] {
+            randoms.push(ring_case(extends, n, 0));
+            randoms.push(ring_case(extends, n, 3));
+        }
+    }
+    report.count_n("long-rings", (ring_sizes.len() * 4) as u64);
+    let random_results: Vec<(String, String, String)> = std::thread::scope(|s| {
         let hs: Vec<_> = randoms
             .chunks(randoms.len().div_ceil(threads).max(1))
             .map(|cs| {
@@ -745,7 +869,16 @@ fn main() {
                                 Some(t) if safe => render_all(&t, c),
                                 _ => String::new(),
                             };
-                            (imp, renders)
+                            // the same set reached through a replacement (two choices of the template)
+                            let n = c.tpls.len();
+                            let mut hist = history_check(c, c.tpls.len() / 2, &imp);
+                            if !hist.starts_with("diff") && n > 1 {
+                                let h2 = history_check(c, n - 1, &imp);
+                                if h2.starts_with("diff") || hist == "na" {
+                                    hist = format!("{h2}\u{1}{}", n - 1);
+                                }
+                            }
+                            (imp, renders, hist)
                         })
                         .collect::<Vec<_>>()
                 })
@@ -772,8 +905,26 @@ fn main() {
                     let (idx, imp, renders) = &results[i];
                     (exhaustive_case(p.n, *idx, env.seed, p.max_edges, &p.sets), imp.clone(), renders.clone())
                 } else {
-                    let (imp, renders) = &random_results[i - n_exh];
-                    (randoms[i - n_exh].clone(), imp.clone(), renders.clone())
+                    let (imp, renders, hist) = &random_results[i - n_exh];
+                    let c = &randoms[i - n_exh];
+                    let (h, x) = match hist.split_once('\u{1}') {
+                        Some((h, x)) => (h, x.parse().unwrap_or(0)),
+                        None => (hist.as_str(), c.tpls.len() / 2),
+                    };
+                    report.count(&format!("history.replacement-last.{}", h.split(' ').next().unwrap_or("")));
+                    if h != "na" {
+                        report.oracle_checks += 1;
+                    }
+                    if let Some(r2) = h.strip_prefix("diff ") {
+                        n_hist_fails += 1;
+                        let strong = imp.starts_with("ok") != r2.starts_with("ok");
+                        if strong && hist_fails.iter().filter(|h| h.2.starts_with("ok") != h.3.starts_with("ok")).count() < 3 {
+                            hist_fails.insert(0, (c.clone(), x, imp.clone(), r2.to_string()));
+                        } else if hist_fails.len() < 3 {
+                            hist_fails.push((c.clone(), x, imp.clone(), r2.to_string()));
+                        }
+                    }
+                    (c.clone(), imp.clone(), renders.clone())
                 }
             })
             .collect();
@@ -854,7 +1005,44 @@ fn main() {
         }
         lo = hi;
     }
-    report.oracle_failures += n_oracle_fails;
+    report.oracle_failures += n_oracle_fails + n_hist_fails;
+    for (c, x, imp, r2) in hist_fails.iter().take(3) {
+        // shrink while the two ways of reaching the set keep answering differently (and keep
+        // differing in acceptance itself when they did)
+        let xname = c.tpls[*x].name.clone();
+        let strong = imp.starts_with("ok") != r2.starts_with("ok");
+        let small = shrink(c.clone(), &|d: &Case| match d.tpls.iter().position(|t| t.name == xname) {
+            Some(k) => {
+                let (i1, _) = register(d);
+                let h = history_check(d, k, &i1);
+                h.starts_with("diff") && (!strong || (i1.starts_with("ok") != h.starts_with("diff ok")))
+            }
+            None => false,
+        });
+        let k = small.tpls.iter().position(|t| t.name == xname).unwrap_or(0);
+        let (i1, _) = register(&small);
+        let i2 = register_two_step(&small, k).unwrap_or_default();
+        let want = oracle(&small, &i2);
+        let mut first = small.tpls.clone();
+        first[k] = strip(&small.tpls[k]);
+        report.violation(
+            "property",
+            format!(
+                "acceptance depends on how the set was reached: registered in one batch the answer is `{}`, but with `{xname}` re-registered last (closing its edges by a replacement) the answer is `{}`{} (originally `{}` vs `{}`)",
+                i1.chars().take(160).collect::<String>(),
+                i2.chars().take(160).collect::<String>(),
+                want.map(|w| format!(" — {w}")).unwrap_or_default(),
+                imp.chars().take(80).collect::<String>(),
+                r2.chars().take(80).collect::<String>()
+            ),
+            {
+                let mut j = replay_json(&small, &i1, serde_json::json!({"replaced_last": xname, "answer_of_the_replacing_call": i2}));
+                j["replaced_last"] = serde_json::json!(k);
+                j["first_step_sources"] = serde_json::json!(first.iter().map(|t| (t.name.clone(), t.source())).collect::<Vec<_>>());
+                j
+            },
+        );
+    }
     for (c, imp0, d) in oracle_fails.iter() {
         let want_accept = imp0.starts_with("ok");
         let small = shrink(c.clone(), &|d: &Case| {
